@@ -21,6 +21,10 @@ import ast, os, re
 class Untranslatable(Exception):
     pass
 
+class NeedsUnwrap(Exception):
+    """a None-able int is used where an int is required: the enclosing statement is wrapped in a match whose None branch is Python's TypeError"""
+    def __init__(self, name): self.name = name
+
 EXN = {'ValueError': 'ValueError', 'IndexError': 'IndexError', 'TypeError': 'TypeError', 'CreationError': 'ValueError',
        'bitstring.CreationError': 'ValueError', 'InterpretError': 'ValueError', 'bitstring.InterpretError': 'ValueError',
        'ReadError': 'ReadError', 'bitstring.ReadError': 'ReadError', 'Error': 'BsError', 'bitstring.Error': 'BsError',
@@ -79,6 +83,7 @@ class K:
         if want == 'optZ' and t == 'Z': return f'(Some {text})'
         if want == 'optZ' and t == 'none': return 'None'
         if want == 'bool' and t == 'Z': return f'(negb ({text} =? 0))'
+        if want == 'Z' and t == 'optZ' and re.fullmatch(r'v_\w+', text): raise NeedsUnwrap(text[2:])
         raise Untranslatable(f'cannot use a {t} where a {want} is expected: {text}')
 
     def expr(self, e, env, want=None):
@@ -115,6 +120,16 @@ class K:
             if type(e.op) in ops:
                 a, _ = self.expr(e.left, env, 'Z'); b, _ = self.expr(e.right, env, 'Z')
                 return f'({a} {ops[type(e.op)]} {b})', 'Z'
+        if isinstance(e, ast.BoolOp) and len(e.values) >= 2 and self.none_test(e.values[0], env):
+            name, is_none = self.none_test(e.values[0], env)
+            rest = e.values[1] if len(e.values) == 2 else ast.BoolOp(op=e.op, values=e.values[1:])
+            env_s = env.copy(); env_s[name] = 'Z'
+            env_n = env.copy(); env_n[name] = 'none'
+            var = V(name.replace('.', '__'))
+            if isinstance(e.op, ast.Or) and is_none:        # x is None or c(x)
+                return f'(match {self.scrutinee(name)} with None => true | Some {var} => {self.truth(rest, env_s)} end)', 'bool'
+            if isinstance(e.op, ast.And) and not is_none:   # x is not None and c(x)
+                return f'(match {self.scrutinee(name)} with None => false | Some {var} => {self.truth(rest, env_s)} end)', 'bool'
         if isinstance(e, ast.BoolOp):
             parts = [self.truth(v, env) for v in e.values]
             return '(' + (' && ' if isinstance(e.op, ast.And) else ' || ').join(parts) + ')', 'bool'
@@ -133,6 +148,9 @@ class K:
             base = ast.unparse(e.value)
             if base == 'self' and e.attr == '_pos' and self.mode == 'stream': return V('_pos'), 'Z'
             if isinstance(e.value, ast.Name) and env.get(e.value.id) == 'slice' and e.attr in ('start', 'stop', 'step'):
+                key = f'{e.value.id}.{e.attr}'
+                if env.get(key) in ('Z', 'none'):          # inside a branch of `x.attr is None`
+                    return (V(key.replace('.', '__')), 'Z') if env[key] == 'Z' else ('None', 'none')
                 return f'(s_{e.attr} {V(e.value.id)})', 'optZ'
             if base == 'bitstring.options' and e.attr == 'lsb0' or base == 'options' and e.attr == 'lsb0': return 'lsb0', 'bool'
         if isinstance(e, ast.Subscript):
@@ -153,6 +171,8 @@ class K:
                 return s if isinstance(op, ast.Is) else f'(negb {s})'
             raise Untranslatable('is: ' + ast.unparse(left) + ' / ' + ast.unparse(right))
         a, ta = self._expr(left, env); b, tb = self._expr(right, env)
+        for x, tx in ((a, ta), (b, tb)):
+            if tx == 'optZ' and re.fullmatch(r'v_\w+', x) and {ta, tb} == {'optZ', 'Z'}: raise NeedsUnwrap(x[2:])
         if ta == 'Z' and tb == 'Z':
             o = {ast.Lt: '<?', ast.LtE: '<=?', ast.Gt: '>?', ast.GtE: '>=?', ast.Eq: '=?'}.get(type(op))
             if o: return f'({a} {o} {b})'
@@ -163,10 +183,20 @@ class K:
     def none_test(self, test, env):
         """recognise `x is None` / `x is not None` on a None-able variable: (name, True if the test is 'is None')"""
         if isinstance(test, ast.Compare) and len(test.ops) == 1 and isinstance(test.ops[0], (ast.Is, ast.IsNot)) \
-                and isinstance(test.comparators[0], ast.Constant) and test.comparators[0].value is None \
-                and isinstance(test.left, ast.Name) and env.get(test.left.id) == 'optZ':
-            return test.left.id, isinstance(test.ops[0], ast.Is)
+                and isinstance(test.comparators[0], ast.Constant) and test.comparators[0].value is None:
+            if isinstance(test.left, ast.Name) and env.get(test.left.id) == 'optZ':
+                return test.left.id, isinstance(test.ops[0], ast.Is)
+            l = test.left
+            if isinstance(l, ast.Attribute) and isinstance(l.value, ast.Name) and env.get(l.value.id) == 'slice' and l.attr in ('start', 'stop', 'step') \
+                    and env.get(f'{l.value.id}.{l.attr}') is None:
+                return f'{l.value.id}.{l.attr}', isinstance(test.ops[0], ast.Is)
         return None
+
+    def scrutinee(self, name):
+        """Coq term matched on for the None-able `name` (a variable, or slice.attr)"""
+        if '.' in name:
+            v, a = name.split('.'); return f'(s_{a} {V(v)})'
+        return V(name)
 
     def ifexp(self, e, env):
         nt = self.none_test(e.test, env)
@@ -177,7 +207,7 @@ class K:
             env_s = env.copy(); env_s[name] = 'Z'
             a, ta = self._expr(e_none, env_n); b, tb = self._expr(e_some, env_s)
             t = self.join(ta, tb)
-            return f'(match {V(name)} with None => {self.coerce(a, ta, t)} | Some {V(name)} => {self.coerce(b, tb, t)} end)', t
+            return f'(match {self.scrutinee(name)} with None => {self.coerce(a, ta, t)} | Some {V(name.replace(".", "__"))} => {self.coerce(b, tb, t)} end)', t
         c = self.truth(e.test, env)
         a, ta = self._expr(e.body, env); b, tb = self._expr(e.orelse, env)
         t = self.join(ta, tb)
@@ -198,6 +228,8 @@ class K:
     def call(self, call, env):
         """-> (coq text, result type, kind) with kind in 'pure' | 'res' (a `res` value) | ('mut', var) / ('mutres', var)"""
         f = ast.unparse(call.func)
+        if f == 'len' and len(call.args) == 1 and isinstance(call.args[0], ast.Call) and ast.unparse(call.args[0].func) == 'range' and len(call.args[0].args) == 3:
+            a, b, c = self.args(call.args[0], env, ['Z', 'Z', 'Z']); return f'(range_len {a} {b} {c})', 'Z', 'pure'
         if f == 'len' and len(call.args) == 1:
             a, t = self._expr(call.args[0], env)
             if t == 'bits': return f'(zlen {a})', 'Z', 'pure'
@@ -265,6 +297,14 @@ class K:
         if not stmts: return k(env)
         s, rest = stmts[0], stmts[1:]
         cont = lambda env2: self.block(rest, env2, k)
+        try:
+            return self.stmt(s, rest, env, k, cont)
+        except NeedsUnwrap as u:
+            if env.get(u.name) != 'optZ': raise Untranslatable('cannot unwrap ' + u.name)
+            env_s = env.copy(); env_s[u.name] = 'Z'
+            return f'(match {V(u.name)} with None => {self.err(env, "TypeError")} | Some {V(u.name)} => {self.block(stmts, env_s, k)} end)'
+
+    def stmt(self, s, rest, env, k, cont):
         if isinstance(s, ast.Expr) and isinstance(s.value, ast.Constant): return cont(env)      # docstring
         if isinstance(s, ast.Pass): return cont(env)
         if isinstance(s, ast.Return):
@@ -282,7 +322,7 @@ class K:
                 b_none, b_some = (s.body, s.orelse) if is_none else (s.orelse, s.body)
                 env_n = env.copy(); env_n[name] = 'none'
                 env_s = env.copy(); env_s[name] = 'Z'
-                return f'(match {V(name)} with None => {self.block(b_none, env_n, cont)} | Some {V(name)} => {self.block(b_some, env_s, cont)} end)'
+                return f'(match {self.scrutinee(name)} with None => {self.block(b_none, env_n, cont)} | Some {V(name.replace(".", "__"))} => {self.block(b_some, env_s, cont)} end)'
             c = self.truth(s.test, env)
             return f'(if {c} then {self.block(s.body, env.copy(), cont)} else {self.block(s.orelse, env.copy(), cont)})'
         if isinstance(s, ast.AugAssign):
@@ -297,6 +337,10 @@ class K:
             return self.block([s2] + rest, env, k)
         if isinstance(s, ast.Assign) and len(s.targets) == 1:
             return self.assign(s.targets[0], s.value, env, cont)
+        if isinstance(s, ast.Assign) and all(isinstance(t, ast.Name) for t in s.targets):
+            first = s.targets[0]
+            more = [ast.Assign(targets=[t], value=ast.Name(id=first.id, ctx=ast.Load())) for t in s.targets[1:]]
+            return self.block([ast.Assign(targets=[first], value=s.value)] + more + rest, env, k)
         if isinstance(s, ast.Expr) and isinstance(s.value, ast.Call):
             text, t, kind = self.call(s.value, env)
             if isinstance(kind, tuple):
@@ -326,7 +370,7 @@ class K:
         if isinstance(value, ast.Name) and value.id == 'self' and self.ret in ('self', 'unit'):
             return self.ok(env, None)
         if isinstance(value, ast.Tuple):
-            want = {'pairZZ': ['Z', 'Z'], 'tripleZoZ': ['Z', 'optZ', 'Z']}.get(self.ret)
+            want = {'pairZZ': ['Z', 'Z'], 'tripleZoZ': ['Z', 'optZ', 'Z'], 'tripleZZZ': ['Z', 'Z', 'Z']}.get(self.ret)
             if want and len(value.elts) == len(want):
                 return self.ok(env, '(' + ', '.join(self.expr(x, env, w)[0] for x, w in zip(value.elts, want)) + ')')
         if isinstance(value, ast.Call):
@@ -474,6 +518,10 @@ FUNCS = {
 # the kernels.  model: the hand-model term the generated definition must equal (same argument names, v_ prefixed)
 # ------------------------------------------------------------------------------------------------
 KERNELS = [
+    dict(py='bitstore.py:indices', name='k_indices', mode='pure', ret='tripleZoZ', props=['C01', 'C12', 'C08'],
+         params=[('s', 'slice'), ('length', 'Z')], model='indices v_s v_length'),
+    dict(py='bitstore.py:offset_slice_indices_lsb0', name='k_offset_slice_indices_lsb0', mode='pure', ret='slice', props=['C01', 'C12'],
+         params=[('key', 'slice'), ('length', 'Z')], model='offset_slice_indices_lsb0 v_key v_length'),
     dict(py='bits.py:Bits._validate_slice', name='k_validate_slice', mode='bits', ret='pairZZ', props=['C03', 'C07', 'C06', 'C12'],
          params=[('start', 'optZ'), ('end', 'optZ')], model='validate_slice v_self v_start v_end'),
     dict(py='bits.py:Bits._absolute_slice', name='k_absolute_slice', mode='bits', ret='bits', props=['C16', 'C19'],
@@ -596,7 +644,7 @@ if __name__ == '__main__':
 # search: evaluate the translated function and the hand model on an exhaustive small domain, list the arguments where they differ
 # ------------------------------------------------------------------------------------------------
 DOM_BITS = ['', '1', '10', '110', '01101', '10110010', '110100101', '1000001101100111', '011011100000000110100101']
-RET_EQB = {'self': 'rbits_eqb', 'bits': 'rbits_eqb', 'pairZZ': 'rzz_eqb'}
+RET_EQB = {'self': 'rbits_eqb', 'bits': 'rbits_eqb', 'pairZZ': 'rzz_eqb', 'slice': 'rslice_eqb', 'tripleZoZ': 'rzoz_eqb'}
 
 def zdom(n):
     if n <= 9: return list(range(-n - 2, n + 3))
@@ -616,7 +664,13 @@ def domain(spec, selfbits):
                 vals = [(v, False) for v in vals] + [(selfbits, True)]; txt = txt + [f'(of01 "{selfbits}", true)']
             else:
                 vals = [(v, False) for v in vals]
+        elif t == 'slice':
+            rr = [None] + list(range(-8, 9))
+            vals = [[a, b, c] for a in rr for b in rr for c in (None, 1, 2, 3, -1, -2, -3, 0)]
+            o = lambda x: 'None' if x is None else f'(Some ({x}))'
+            txt = [f'(mkslice {o(a)} {o(b)} {o(c)})' for a, b, c in vals]
         else: raise Untranslatable('no search domain for ' + t)
+        if spec.get('mode', 'pure') == 'pure' and t == 'Z': vals = list(range(0, 8)); txt = [f'({v})' for v in vals]
         doms.append((vals, txt))
     return doms
 
@@ -626,11 +680,11 @@ def search_text(spec):
     lines = ['From BS Require Import Prims CaseLib BitsCore Mutators KernelLib.', 'From Coq Require Import String.', 'From GenK Require Import GenKernels.', 'Open Scope Z_scope.',
              'Fixpoint bad_idx {A} (f : A -> bool) (l : list A) (i : Z) : list Z := match l with [] => [] | x :: r => if f x then bad_idx f r (i + 1) else i :: bad_idx f r (i + 1) end.']
     table = []
-    for ci, sb in enumerate(DOM_BITS):
+    for ci, sb in enumerate(DOM_BITS if spec.get('mode', 'pure') != 'pure' else ['']):
         doms = domain(spec, sb)
         # nested products: (a1, (a2, (a3, tt)))
         prod = 'tt :: nil'
-        ctype = {'Z': 'Z', 'optZ': 'option Z', 'bool': 'bool', 'bits': '(bits * bool)'}
+        ctype = {'Z': 'Z', 'optZ': 'option Z', 'bool': 'bool', 'bits': '(bits * bool)', 'slice': 'pyslice'}
         for (vals, txt), (name, t) in reversed(list(zip(doms, spec['params']))):
             prod = f'list_prod ({" :: ".join(txt)} :: nil) ({prod})'
         pat, call_g, call_m = 'tt', [], spec['model']
@@ -647,7 +701,7 @@ def search_text(spec):
             else:
                 gargs.append(V(name))
         selfarg = 'v_self ' if spec.get('mode', 'pure') in ('bits', 'stream') else ''
-        for lsb0 in ('false', 'true'):
+        for lsb0 in (('false', 'true') if spec.get('mode', 'pure') != 'pure' else ('false',)):
             lines.append(f"Definition d_{ci}_{lsb0} := let lsb0 := {lsb0} in let v_self := of01 \"{sb}\" in bad_idx (fun '{pat} => {binds}{RET_EQB[spec['ret']]} "
                          f"({spec['name']} lsb0 {selfarg}{' '.join(gargs)}) ({spec['model']})) ({prod}) 0.")
             table.append((ci, lsb0 == 'true', doms))
